@@ -430,6 +430,7 @@ type Frame struct {
 	callCnt  map[string]int
 	callReach map[string]string
 	chanFacts []*chanFact
+	letVals  map[string]Term
 }
 
 // chanFact: a per-element fact about a channel returned by a call, instantiated at receives.
